@@ -327,9 +327,28 @@ fn main() {
 fn replay_child(exe: &std::path::Path, id: &str, tier: Tier, file: &std::path::Path) -> (i32, String) {
     let o = Command::new(exe).arg(id).arg("--tier").arg(tier.name()).arg("--replay").arg(file).output();
     match o {
-        Ok(o) => (o.status.code().unwrap_or(-1), String::from_utf8_lossy(&o.stdout).into_owned()),
+        Ok(o) => (o.status.code().unwrap_or(-1), without_port_numbers(&String::from_utf8_lossy(&o.stdout))),
         Err(e) => (-1, e.to_string()),
     }
+}
+
+/// The loopback port of a scripted peer is picked afresh in every process and turns up in the program's own
+/// error texts; it is no part of the case, so two replays are compared with it blanked.
+fn without_port_numbers(s: &str) -> String {
+    let pat = "127.0.0.1:";
+    let mut out = String::with_capacity(s.len());
+    let mut rest = s;
+    while let Some(i) = rest.find(pat) {
+        out.push_str(&rest[..i + pat.len()]);
+        rest = &rest[i + pat.len()..];
+        let digits = rest.bytes().take_while(|b| b.is_ascii_digit()).count();
+        if digits > 0 {
+            out.push_str("<port>");
+        }
+        rest = &rest[digits..];
+    }
+    out.push_str(rest);
+    out
 }
 
 /// what the crowded-table probe of the sweep engine found (see engine/sweep.rs)
